@@ -67,7 +67,7 @@ static int tell_if(void *data, const char *key, void *value) {
     ev_src_t *sub = msg->msg.topic ? (ev_src_t *)key : NULL;                 // key is indeed a subscription when we are publishing (check tell_subscribers()) !!
 
     if (mod->state & (M_MOD_RUNNING | M_MOD_PAUSED) &&                       // mod is running or paused
-        (!msg->msg.topic || sub)) {                                          // it is a publish and mod is subscribed on topic, or it is a broadcast/direct tell message
+        (!key || !msg->msg.topic || sub)) {                                  // it is a direct tell (no key; eg: a poisonpill, that has a topic), a broadcast, or a publish and mod is subscribed on topic
 
         M_DEBUG("Telling a message to '%s'\n", mod->name);
         ps_priv_t *m = alloc_ps_msg(msg, sub);
